@@ -181,25 +181,43 @@ def _visitor_semantics(F, b, kind):
     CUSTOM, INVALID = "serde::de::Error::custom", "serde::de::Error::invalid_length"
     # the string visitor must hand every input to the text parser, whatever its length (SIZE_IN_BYTES included: raw bytes are not text)
     lens = (N, 2 * N, 2 * N + 2, 0) if kind == "string" else (N, N - 1, N + 1, 0)
+    params = {1: V_} if kind == "slice" else {1: SELF, 2: V_}
     for L in lens:
         for outcome in (("Ok", H_), ("Err", E_)):
             seen = {"parser": 0}
 
             def slice_len(x):
+                if isinstance(x, tuple) and x and x[0] == "view":
+                    return x[3] - x[2]
                 if x != V_ and x != ("arr", V_):
                     raise evalx.Unknown("len of %s" % (x,))
                 return L
 
+            def get_view(o, rng):
+                # v.get(..k) / v.get(a..b): Some(view) exactly when the range lies inside the input; the full range is the input itself
+                if o == V_ and isinstance(rng, tuple) and rng[0] == "adt" and rng[1].startswith("core::ops::Range") and all(isinstance(t_, int) for t_ in rng[2:]):
+                    kind_ = rng[1].rsplit("::", 1)[-1]
+                    lo, hi = {"RangeTo": (0, rng[2]), "RangeFrom": (rng[2], L), "Range": (rng[2], rng[3] if len(rng) > 3 else L)}.get(kind_, (None, None))
+                    if lo is None:
+                        raise evalx.Unknown("range %s" % kind_)
+                    if not (lo <= hi <= L):
+                        return ("None",)
+                    return ("Some", V_ if (lo, hi) == (0, L) else ("view", V_, lo, hi))
+                raise evalx.Unknown("get(%s, %s)" % (o, rng))
+
             def try_into(S_, bb, vals):
                 tgt = panics.try_into_target_len(F, S_.b, bb) if bb is not None else None
-                if vals != [V_] or tgt is None:
+                src_ = vals[0] if len(vals) == 1 else None
+                if tgt is None or not (src_ == V_ or (isinstance(src_, tuple) and src_ and src_[0] == "view")):
                     raise evalx.Unknown("try_into of %s" % (vals,))
                 tl = tgt[1] if tgt[0] == "val" else {"SIZE_IN_BYTES": N}.get(tgt[1])
                 if tl is None:
                     raise evalx.Unknown("try_into target length %s" % (tgt,))
-                return ("Ok", ("arr", V_)) if L == tl else ("Err", ("obj", "TryFromSliceError"))
+                return ("Ok", ("arr", src_)) if slice_len(src_) == tl else ("Err", ("obj", "TryFromSliceError"))
 
             def array_parser(x):
+                if isinstance(x, tuple) and x[:1] == ("arr",) and isinstance(x[1], tuple) and x[1][:1] == ("view",):
+                    return ("Ok", ("obj", "hash parsed from bytes %d..%d of the input only" % (x[1][2], x[1][3])))
                 if x != ("arr", V_):
                     raise evalx.Unknown("array parser applied to %s" % (x,))
                 seen["parser"] += 1
@@ -213,8 +231,8 @@ def _visitor_semantics(F, b, kind):
                 seen["parser"] += 1
                 return outcome
 
-            asg = {"symbolic": True, "params": {1: SELF, 2: V_}, "cparams": {"SIZE_IN_BYTES": N},
-                   "calls": {"core::slice::<impl [T]>::len": slice_len, "TryFrom<&[u8; SIZE_IN_BYTES]>>::try_from": array_parser,
+            asg = {"symbolic": True, "params": params, "cparams": {"SIZE_IN_BYTES": N},
+                   "calls": {"core::slice::<impl [T]>::len": slice_len, "core::slice::<impl [T]>::get": get_view, "TryFrom<&[u8; SIZE_IN_BYTES]>>::try_from": array_parser,
                              "::from_str_bytes": str_parser},
                    "xcalls": {"TryInto<U>>::try_into": try_into, "for &'a [T; N]>::try_from": try_into}}
             try:
@@ -223,7 +241,12 @@ def _visitor_semantics(F, b, kind):
                 return "input of length %s panics (%s)" % ("SIZE_IN_BYTES%+d" % (L - N) if L else 0, ex)
             except evalx.Unknown as ex:
                 return "cannot evaluate: %s" % ex
-            if kind == "bytes" and L != N:
+            if kind == "slice":
+                if L != N:
+                    ok, want = got == ("Err", ("adt", "errors::ParseError::InvalidStringLength")), "Err(InvalidStringLength)"
+                else:
+                    ok, want = got == outcome, "the array parser's result unchanged"
+            elif kind == "bytes" and L != N:
                 ok = isinstance(got, tuple) and got[0] == "Err" and isinstance(got[1], tuple) and got[1][:2] == ("app", INVALID) and got[1][2][0] == L
                 want = "Err(invalid_length(len, ..))"
             elif outcome[0] == "Ok":
